@@ -147,6 +147,18 @@ PROPS = {
           'Non-trivial: >=2 runs were started together over a shared result; distinct by scenario x repetition.',
           variants={'quick': ['race'], 'thorough': ['race']}, nbatch=(16, 16), timeout=(1200, 3400), vary_gomaxprocs=True,
           must_observe=['concurrent_runs_ok', 'scenarios_with_all_runs_overlapping', 'shared_source_attempts']),
+ 'C03': P('exploration',
+          'cases = (task graph out of 12 shapes: chains, diamond, multi-root, one/two shuffle phases with task groups, shared and double shuffle '
+          'dependencies, an unneeded task, two evaluations over shared tasks; initial state of every task in {INIT, OK, LOST, ERR}; adversary script). '
+          '(a) all-INIT graphs with every script of length <= 3 (quick) / 5 (thorough) over (pick in {0,1}) x {ok, lost, err, lose-a-completed-task}; '
+          '(b) every initial-state assignment for graphs of <= 6 tasks (quick: every 5th above 4 tasks); (c) 8000 / 300000 seeded random initial '
+          'states and scripts up to depth 40. exec.Eval runs against an adversarial Executor that parks every hand-off; all harness-made state changes '
+          'and hand-offs get logical timestamps. Oracle: every dependency OK at hand-off (window form when completed tasks are lost spontaneously); '
+          'no task handed out twice at once; no unneeded task run; nil only if every root is OK; an error only after a fatal outcome, five consecutive '
+          'losses or an initially failed task; and no stall (evaluation not returned, nothing in the executor, event counter unchanged across two '
+          'goroutine profiles showing Eval parked). Non-trivial: >=1 hand-off and a non-OK outcome or non-INIT initial state.',
+          variants={'quick': ['plain'], 'thorough': ['plain', 'race']}, nbatch=(8, 16),
+          must_observe=['handoffs', 'resubmissions', 'two_evaluator_histories']),
 }
 
 META = {
@@ -235,4 +247,10 @@ META = {
     note='Schedule perturbation is placed in user functions and at RPC boundaries (never inside library locks). Race reports wholly inside '
          'bigmachine/base are not counted. murmur3 is exempt from checkptr (forms a one-past-the-end pointer).',
     technique='Go race detector + differential result check + overlap monitor on shared task executions'),
+ 'C03': dict(
+    text='Exploration: the real evaluator is run against an adversarial executor over enumerated and random outcome histories; a trace oracle over '
+         'logical timestamps checks readiness at hand-off, exclusivity, need, the return verdict and progress.',
+    note='Which interleaving is explored depends on goroutine scheduling (quiescence is detected by spinning); verdicts depend only on logical '
+         'timestamps and, for stalls, on two goroutine profiles. enableMaxConsecutiveLost is at its default (true).',
+    technique='adversarial-executor runtime monitoring with a trace oracle; goroutine-profile stall proof'),
 }
